@@ -1,11 +1,821 @@
-//! (stub) binding for this area — see DESIGN.md
-use crate::util::Args;
-use anyhow::Result;
+//! Binding of spec/Container.tla and spec/Varint.tla to the real code:
+//!   C13  ragc_common::Archive writer/reader + varint codec   (replay-container, trace-container, trace-varint)
+//!   C14  every strict prefix of real archives through Archive::open / Decompressor::open (trace-truncate)
+//!   C15  every first-failing-write offset injected into a real create (fault-sweep; children run
+//!        under RLIMIT_FSIZE with SIGXFSZ ignored)
+//! Nothing is judged here: REPLAY compares the model's projected state with the real one, the
+//! trace commands only record events (arguments, result class, cheap post-state) for TLC.
+use crate::util::{self, Args};
+use anyhow::{anyhow, Context, Result};
+use ragc_common::{decode_varint, encode_varint, Archive};
+use ragc_core::contig_iterator::ContigIterator;
+use ragc_core::{Decompressor, DecompressorConfig, MultiFileIterator, StreamingQueueCompressor, StreamingQueueConfig};
+use rand::rngs::StdRng;
+use rand::Rng;
+use serde_json::{json, Value};
+use std::alloc::{GlobalAlloc, Layout, System};
+use std::io::{BufRead, Write};
+use std::panic::AssertUnwindSafe;
+use std::path::{Path, PathBuf};
+use std::sync::atomic::{AtomicUsize, Ordering};
 
-/// Returns None when `cmd` is not one of this module's sub-commands.
 pub fn dispatch(cmd: &str, a: &Args) -> Option<Result<()>> {
-    let _ = a;
     match cmd {
+        "replay-container" => Some(replay(a)),
+        "trace-container" => Some(trace(a)),
+        "trace-varint" => Some(trace_varint(a)),
+        "mk-inputs" => Some(mk_inputs(a)),
+        "create" => Some(create_cmd(a)),
+        "trace-truncate" => Some(trace_truncate(a)),
+        "fault-sweep" => Some(fault_sweep(a)),
         _ => None,
     }
+}
+
+// ---------------------------------------------------------------------------------------------
+// counting allocator (C14: "an attempt to allocate a garbage-sized buffer")
+// ---------------------------------------------------------------------------------------------
+pub struct Counting;
+static MAX_REQ: AtomicUsize = AtomicUsize::new(0);
+static ALLOC_LIMIT: AtomicUsize = AtomicUsize::new(usize::MAX);
+
+fn note(size: usize) {
+    MAX_REQ.fetch_max(size, Ordering::Relaxed);
+    if size > ALLOC_LIMIT.load(Ordering::Relaxed) {
+        // a garbage-sized request: do not let the allocator abort the process without a trace;
+        // report it and leave (the driver resumes after this offset)
+        let msg = format!("HUGEALLOC size={}\n", size);
+        unsafe {
+            libc::write(2, msg.as_ptr() as *const libc::c_void, msg.len());
+            libc::_exit(77);
+        }
+    }
+}
+unsafe impl GlobalAlloc for Counting {
+    unsafe fn alloc(&self, l: Layout) -> *mut u8 {
+        note(l.size());
+        System.alloc(l)
+    }
+    unsafe fn alloc_zeroed(&self, l: Layout) -> *mut u8 {
+        note(l.size());
+        System.alloc_zeroed(l)
+    }
+    unsafe fn dealloc(&self, p: *mut u8, l: Layout) {
+        System.dealloc(p, l)
+    }
+    unsafe fn realloc(&self, p: *mut u8, l: Layout, n: usize) -> *mut u8 {
+        note(n);
+        System.realloc(p, l, n)
+    }
+}
+#[global_allocator]
+static GLOBAL: Counting = Counting;
+
+// ---------------------------------------------------------------------------------------------
+// projections
+// ---------------------------------------------------------------------------------------------
+/// u64 -> normalised big-endian base-256 digit sequence (the spec's representation of a u64)
+fn digits(v: u64) -> Vec<u8> {
+    let b = v.to_be_bytes();
+    let z = b.iter().take_while(|&&x| x == 0).count();
+    b[z..].to_vec()
+}
+fn undigits(v: &Value) -> u64 {
+    v.as_array().map(|a| a.iter().fold(0u64, |acc, d| (acc << 8) | d.as_u64().unwrap())).unwrap_or(0)
+}
+/// spec Container!Bytes(d): the bytes a data token of the bounded model stands for
+fn token_bytes(d: &Value) -> Vec<u8> {
+    let len = d["len"].as_u64().unwrap();
+    let id = d["id"].as_u64().unwrap();
+    (1..=len).map(|i| ((id * 37 + i * 11) % 256) as u8).collect()
+}
+/// bytes -> opaque token [len, id] for recorded traces (id = 30 bits of SHA-256; empty = [0,0])
+fn token_of(b: &[u8]) -> Value {
+    if b.is_empty() {
+        return json!({"len": 0, "id": 0});
+    }
+    let h = util::sha256_hex(b);
+    let id = u64::from_str_radix(&h[..8], 16).unwrap() >> 2;
+    json!({"len": b.len(), "id": id})
+}
+fn name_of(v: &Value) -> String {
+    v.as_array().unwrap().iter().map(|c| c.as_u64().unwrap() as u8 as char).collect()
+}
+fn codes(s: &str) -> Vec<u8> {
+    s.bytes().collect()
+}
+fn obs(a: &Archive) -> Value {
+    let names: Vec<Vec<u8>> = a.get_stream_names().iter().map(|n| codes(n)).collect();
+    let n = a.get_num_streams();
+    let nparts: Vec<usize> = (0..n).map(|s| a.get_num_parts(s)).collect();
+    let raw: Vec<Vec<u8>> = (0..n).map(|s| digits(a.get_raw_size(s))).collect();
+    json!({"names": names, "nparts": nparts, "raw": raw})
+}
+fn part_json(r: &Option<(Vec<u8>, u64)>, tok: impl Fn(&[u8]) -> Value) -> Value {
+    match r {
+        None => json!({"none": true}),
+        Some((d, m)) => json!({"data": tok(d), "meta": digits(*m)}),
+    }
+}
+
+// ---------------------------------------------------------------------------------------------
+// REPLAY (C13): every behaviour of MC_Container on the real Archive
+// ---------------------------------------------------------------------------------------------
+fn same_obs(model: &Value, real: &Value) -> bool {
+    model["names"] == real["names"] && model["nparts"] == real["nparts"] && model["raw"] == real["raw"]
+}
+
+fn replay_one(b: &Value, path: &Path) -> Option<Value> {
+    let mut w = Archive::new_writer();
+    let mut r: Option<Archive> = None;
+    if let Err(e) = w.open(path) {
+        return Some(json!({"step": -1, "field": "open-writer", "real": format!("{:#}", e)}));
+    }
+    // materialised bytes of a model part {data:{len,id}, meta:[..]} or {none:true}
+    let real_part = |x: &Option<(Vec<u8>, u64)>| part_json(x, |d| json!(d));
+    let model_part = |m: &Value| {
+        if m.get("none").is_some() {
+            json!({"none": true})
+        } else {
+            json!({"data": token_bytes(&m["data"]), "meta": m["meta"]})
+        }
+    };
+    for (i, st) in b["steps"].as_array().unwrap().iter().enumerate() {
+        let op = st["op"].as_str().unwrap();
+        let fail = |field: &str, real: Value| Some(json!({"step": i, "op": op, "field": field, "model": st, "real": real}));
+        match op {
+            "reg" => {
+                let id = w.register_stream(&name_of(&st["name"]));
+                if id as u64 != st["res"].as_u64().unwrap() {
+                    return fail("id", json!(id));
+                }
+            }
+            "add" => {
+                let s = st["s"].as_u64().unwrap() as usize;
+                if let Err(e) = w.add_part(s, &token_bytes(&st["data"]), undigits(&st["meta"])) {
+                    return fail("result", json!(format!("{:#}", e)));
+                }
+            }
+            "buf" => {
+                let s = st["s"].as_u64().unwrap() as usize;
+                w.add_part_buffered(s, token_bytes(&st["data"]), undigits(&st["meta"]));
+            }
+            "flush" => {
+                if let Err(e) = w.flush_buffers() {
+                    return fail("result", json!(format!("{:#}", e)));
+                }
+            }
+            "raw" => w.set_raw_size(st["s"].as_u64().unwrap() as usize, undigits(&st["val"])),
+            "close" => {
+                if let Err(e) = w.close() {
+                    return fail("result", json!(format!("{:#}", e)));
+                }
+            }
+            "open" => {
+                let mut a = Archive::new_reader();
+                if let Err(e) = a.open(path) {
+                    return fail("result", json!(format!("{:#}", e)));
+                }
+                r = Some(a);
+            }
+            "get" => {
+                let a = r.as_mut().unwrap();
+                match a.get_part(st["s"].as_u64().unwrap() as usize) {
+                    Ok(x) => {
+                        if real_part(&x) != model_part(&st["res"]) {
+                            return fail("res", real_part(&x));
+                        }
+                    }
+                    Err(e) => return fail("result", json!(format!("{:#}", e))),
+                }
+            }
+            "getid" => {
+                let a = r.as_mut().unwrap();
+                match a.get_part_by_id(st["s"].as_u64().unwrap() as usize, st["i"].as_u64().unwrap() as usize) {
+                    Ok(x) => {
+                        let x = Some(x);
+                        if real_part(&x) != model_part(&st["res"]) {
+                            return fail("res", real_part(&x));
+                        }
+                    }
+                    Err(e) => return fail("result", json!(format!("{:#}", e))),
+                }
+            }
+            _ => return fail("unknown-op", Value::Null),
+        }
+        if let Some(m) = st.get("obs") {
+            let real = match m["mode"].as_str().unwrap() {
+                "writing" => Some(obs(&w)),
+                "reading" => Some(obs(r.as_ref().unwrap())),
+                _ => None,
+            };
+            if let Some(real) = real {
+                if !same_obs(m, &real) {
+                    return fail("obs", real);
+                }
+            }
+        }
+    }
+    // final read-back on a FRESH handle: names -> ids, counts, sequential reads to the end, then by id backwards
+    let mut a = Archive::new_reader();
+    if let Err(e) = a.open(path) {
+        return Some(json!({"step": "readback", "field": "open", "real": format!("{:#}", e)}));
+    }
+    let expect = b["expect"].as_array().unwrap();
+    let names = a.get_stream_names();
+    if names.len() != expect.len() {
+        return Some(json!({"step": "readback", "field": "nstreams", "model": expect.len(), "real": names.len()}));
+    }
+    for (s, parts) in expect.iter().enumerate() {
+        let parts = parts.as_array().unwrap();
+        if a.get_stream_id(&names[s]) != Some(s) {
+            return Some(json!({"step": "readback", "field": "stream-id", "stream": s}));
+        }
+        if a.get_num_parts(s) != parts.len() {
+            return Some(json!({"step": "readback", "field": "nparts", "stream": s, "model": parts.len(), "real": a.get_num_parts(s)}));
+        }
+        for (i, p) in parts.iter().enumerate() {
+            match a.get_part(s) {
+                Ok(x) if real_part(&x) == model_part(p) => {}
+                Ok(x) => return Some(json!({"step": "readback", "field": "get_part", "stream": s, "part": i, "model": p, "real": real_part(&x)})),
+                Err(e) => return Some(json!({"step": "readback", "field": "get_part", "stream": s, "part": i, "model": p, "real": format!("{:#}", e)})),
+            }
+        }
+        match a.get_part(s) {
+            Ok(None) => {}
+            other => return Some(json!({"step": "readback", "field": "get_part-end", "stream": s, "real": format!("{:?}", other.map(|o| o.map(|x| x.0.len())))})),
+        }
+        for (i, p) in parts.iter().enumerate().rev() {
+            match a.get_part_by_id(s, i) {
+                Ok(x) if real_part(&Some(x.clone())) == model_part(p) => {}
+                Ok(x) => return Some(json!({"step": "readback", "field": "get_part_by_id", "stream": s, "part": i, "model": p, "real": real_part(&Some(x))})),
+                Err(e) => return Some(json!({"step": "readback", "field": "get_part_by_id", "stream": s, "part": i, "model": p, "real": format!("{:#}", e)})),
+            }
+        }
+    }
+    None
+}
+
+pub fn replay(a: &Args) -> Result<()> {
+    util::install_panic_hook();
+    let f = std::fs::File::open(a.get("in")?)?;
+    let dir = tempfile::tempdir_in(a.opt("tmp").unwrap_or("/tmp"))?;
+    let path = dir.path().join("r.agc");
+    let (mut n, mut steps) = (0u64, 0u64);
+    let mut fails: Vec<Value> = vec![];
+    for line in std::io::BufReader::new(f).lines() {
+        let line = line?;
+        if line.trim().is_empty() {
+            continue;
+        }
+        let b: Value = serde_json::from_str(&line)?;
+        n += 1;
+        steps += b["steps"].as_array().unwrap().len() as u64;
+        match util::catch(AssertUnwindSafe(|| replay_one(&b, &path))) {
+            Ok(None) => {}
+            Ok(Some(mut v)) => {
+                v["behaviour"] = b.clone();
+                fails.push(v);
+            }
+            Err(p) => fails.push(json!({"panic": p, "behaviour": b})),
+        }
+        if fails.len() >= 20 {
+            break;
+        }
+    }
+    println!("{}", json!({"behaviours": n, "steps": steps, "fails": fails}));
+    Ok(())
+}
+
+// ---------------------------------------------------------------------------------------------
+// TRACE (C13): random long histories on the real Archive, one event per call
+// ---------------------------------------------------------------------------------------------
+const BOUNDARY_SHIFTS: [u32; 9] = [0, 8, 16, 24, 32, 40, 48, 56, 63];
+fn boundary_u64(rng: &mut StdRng) -> u64 {
+    match rng.gen_range(0..10) {
+        0 => 0,
+        1 => u64::MAX,
+        2 | 3 => 1u64 << BOUNDARY_SHIFTS[rng.gen_range(0..9)],
+        4 | 5 => (1u64 << BOUNDARY_SHIFTS[rng.gen_range(1..9)]) - 1,
+        6 => (1u64 << BOUNDARY_SHIFTS[rng.gen_range(0..9)]) + 1,
+        7 => rng.gen::<u64>() >> rng.gen_range(0..64),
+        _ => rng.gen_range(0..100_000),
+    }
+}
+fn rand_name(rng: &mut StdRng, i: usize) -> String {
+    // printable ASCII 0x20..0x7e, unique by construction (index suffix), varied alphabet/length
+    let l = rng.gen_range(0..12);
+    let mut s: String = (0..l).map(|_| rng.gen_range(0x20u8..0x7f) as char).collect();
+    s.push_str(&format!("#{}", i));
+    s
+}
+fn rand_data(rng: &mut StdRng, big: bool) -> Vec<u8> {
+    let len = match rng.gen_range(0..10) {
+        0 | 1 => 0,
+        2 => 1,
+        3 => rng.gen_range(1..9),
+        4 => [255usize, 256, 257, 65535, 65536][rng.gen_range(0..5)],
+        5 if big => rng.gen_range(1000..65537),
+        _ => rng.gen_range(1..300),
+    };
+    let mut v = vec![0u8; len];
+    rng.fill(&mut v[..]);
+    // make 0x00 / 0xff prefixes (what a varint header looks like) common
+    if len > 0 && rng.gen_bool(0.2) {
+        v[0] = [0u8, 1, 8, 255][rng.gen_range(0..4)];
+    }
+    v
+}
+
+pub fn trace(a: &Args) -> Result<()> {
+    util::install_panic_hook();
+    let seed: u64 = a.num("seed", 1);
+    let ncases: usize = a.num("ncases", 4);
+    let nops: usize = a.num("ops", 200);
+    let maxstreams: usize = a.num("streams", 40);
+    let mut out = std::io::BufWriter::new(std::fs::File::create(a.get("out")?)?);
+    let dir = tempfile::tempdir_in(a.opt("tmp").unwrap_or("/tmp"))?;
+    for case in 0..ncases {
+        let mut rng = util::rng(seed.wrapping_mul(1_000_003) ^ (case as u64) << 20 ^ 0xC13);
+        let path = dir.path().join(format!("t{}.agc", case));
+        // case styles: 0 mixed, 1 many streams few parts, 2 one stream many parts, 3 buffered-heavy with big parts
+        let style = case % 4;
+        let nstreams_target = match style { 1 => maxstreams * 6, 2 => 1, _ => maxstreams };
+        let big = style == 3 || style == 0;
+        writeln!(out, "{}", json!({"ev": "start", "case": case, "style": style}))?;
+        let res = util::catch(AssertUnwindSafe(|| -> Result<()> {
+            let mut w = Archive::new_writer();
+            w.open(&path)?;
+            let mut names: Vec<String> = vec![];
+            let mut nparts = 0usize;
+            let mut i = 0usize;
+            while i < nops {
+                i += 1;
+                let n = names.len();
+                let roll = rng.gen_range(0..100);
+                if n == 0 || (n < nstreams_target && roll < if style == 1 { 45 } else { 8 }) {
+                    let name = rand_name(&mut rng, n);
+                    let id = w.register_stream(&name);
+                    writeln!(out, "{}", json!({"ev": "reg", "name": codes(&name), "res": id}))?;
+                    names.push(name);
+                } else if roll < 12 {
+                    // repeated registration
+                    let name = names[rng.gen_range(0..n)].clone();
+                    let id = w.register_stream(&name);
+                    writeln!(out, "{}", json!({"ev": "reg", "name": codes(&name), "res": id}))?;
+                } else if roll < 18 {
+                    let r = w.flush_buffers();
+                    writeln!(out, "{}", json!({"ev": "flush", "ok": r.is_ok(), "obs": obs(&w)}))?;
+                    r?;
+                } else if roll < 24 {
+                    let s = rng.gen_range(0..n);
+                    let v = boundary_u64(&mut rng);
+                    w.set_raw_size(s, v);
+                    writeln!(out, "{}", json!({"ev": "raw", "s": s, "val": digits(v), "got": digits(w.get_raw_size(s))}))?;
+                } else {
+                    // skewed stream choice so that some streams get many parts, in descending-id bursts too
+                    let s = if rng.gen_bool(0.5) { rng.gen_range(0..n) } else { n - 1 - rng.gen_range(0..n.min(3)) };
+                    let d = rand_data(&mut rng, big);
+                    let m = boundary_u64(&mut rng);
+                    let buffered = rng.gen_range(0..100) < if style == 3 { 75 } else { 50 };
+                    nparts += 1;
+                    if buffered {
+                        let t = token_of(&d);
+                        w.add_part_buffered(s, d, m);
+                        writeln!(out, "{}", json!({"ev": "buf", "s": s, "data": t, "meta": digits(m)}))?;
+                    } else {
+                        let r = w.add_part(s, &d, m);
+                        writeln!(out, "{}", json!({"ev": "add", "s": s, "data": token_of(&d), "meta": digits(m), "ok": r.is_ok(), "n": w.get_num_parts(s)}))?;
+                        r?;
+                    }
+                }
+            }
+            let r = w.flush_buffers();
+            writeln!(out, "{}", json!({"ev": "flush", "ok": r.is_ok(), "obs": obs(&w)}))?;
+            r?;
+            let r = w.close();
+            writeln!(out, "{}", json!({"ev": "close", "ok": r.is_ok()}))?;
+            r?;
+            drop(w);
+            let mut rd = Archive::new_reader();
+            let r = rd.open(&path);
+            writeln!(out, "{}", json!({"ev": "open", "ok": r.is_ok(), "obs": obs(&rd),
+                "ids": names.iter().map(|n| rd.get_stream_id(n).map(|x| x as i64).unwrap_or(-1)).collect::<Vec<_>>()}))?;
+            r?;
+            // reads in a random order: sequential cursors interleaved over streams, random access
+            // anywhere, reads past the end; every part is read at least once sequentially
+            let n = names.len();
+            let mut left: Vec<usize> = (0..n).map(|s| rd.get_num_parts(s) + 1).collect(); // +1: the read past the end
+            let mut open_streams: Vec<usize> = (0..n).collect();
+            let mut budget = nparts * 2 + n + 10;
+            while !open_streams.is_empty() && budget > 0 {
+                budget -= 1;
+                if rng.gen_bool(0.4) {
+                    let s = rng.gen_range(0..n);
+                    let np = rd.get_num_parts(s);
+                    if np > 0 {
+                        let i = rng.gen_range(0..np);
+                        let x = rd.get_part_by_id(s, i);
+                        let ok = x.is_ok();
+                        writeln!(out, "{}", json!({"ev": "getid", "s": s, "i": i, "ok": ok, "res": part_json(&x.ok(), token_of)}))?;
+                        continue;
+                    }
+                }
+                let k = rng.gen_range(0..open_streams.len());
+                let s = open_streams[k];
+                let x = rd.get_part(s);
+                let ok = x.is_ok();
+                writeln!(out, "{}", json!({"ev": "get", "s": s, "ok": ok, "res": part_json(&x.unwrap_or(None), token_of)}))?;
+                left[s] -= 1;
+                if left[s] == 0 {
+                    open_streams.swap_remove(k);
+                }
+            }
+            Ok(())
+        }));
+        match res {
+            Ok(Ok(())) => {}
+            Ok(Err(e)) => writeln!(out, "{}", json!({"ev": "error", "msg": format!("{:#}", e)}))?,
+            Err(p) => writeln!(out, "{}", json!({"ev": "panic", "msg": p}))?,
+        }
+    }
+    out.flush()?;
+    Ok(())
+}
+
+/// TRACE (C13, "magnitudes up to 2^64-1 survive"): the codec pair on boundary and random values
+pub fn trace_varint(a: &Args) -> Result<()> {
+    util::install_panic_hook();
+    let mut rng = util::rng(a.num("seed", 1u64) ^ 0x7a);
+    let n: usize = a.num("n", 2000);
+    let mut out = std::io::BufWriter::new(std::fs::File::create(a.get("out")?)?);
+    writeln!(out, "{}", json!({"ev": "start", "case": 0}))?;
+    let mut vals: Vec<u64> = vec![0, 1, u64::MAX, u64::MAX - 1, 1 << 63, (1 << 63) - 1, (1 << 63) + 1];
+    for sh in 1..8u32 {
+        let p = 1u64 << (8 * sh);
+        vals.extend_from_slice(&[p - 2, p - 1, p, p + 1]);
+    }
+    for _ in 0..n {
+        vals.push(rng.gen::<u64>() >> rng.gen_range(0..64));
+    }
+    for v in vals {
+        let r = util::catch(|| {
+            let e = encode_varint(v);
+            let d = decode_varint(&e);
+            (e, d.map_err(|x| x.to_string()))
+        });
+        match r {
+            Ok((e, Ok((d, used)))) => writeln!(out, "{}", json!({"ev": "varint", "v": digits(v), "bytes": e, "ok": true, "dec": digits(d), "used": used}))?,
+            Ok((e, Err(m))) => writeln!(out, "{}", json!({"ev": "varint", "v": digits(v), "bytes": e, "ok": false, "msg": m}))?,
+            Err(p) => writeln!(out, "{}", json!({"ev": "varint", "v": digits(v), "bytes": [], "ok": false, "msg": p}))?,
+        }
+    }
+    out.flush()?;
+    Ok(())
+}
+
+// ---------------------------------------------------------------------------------------------
+// real archives for C14 / C15: small synthetic multi-sample inputs through the streaming compressor
+// ---------------------------------------------------------------------------------------------
+const K: usize = 11;
+const SEG: usize = 100;
+const MINMATCH: usize = 15;
+
+fn rand_seq(rng: &mut StdRng, n: usize) -> Vec<u8> {
+    (0..n).map(|_| b"ACGT"[rng.gen_range(0..4)]).collect()
+}
+fn mutate(rng: &mut StdRng, s: &[u8], rate: f64) -> Vec<u8> {
+    let mut o = Vec::with_capacity(s.len() + 16);
+    for &c in s {
+        let r: f64 = rng.gen();
+        if r < rate {
+            o.push(b"ACGT"[rng.gen_range(0..4)]);
+        } else if r < rate * 1.2 {
+            // deletion
+        } else if r < rate * 1.4 {
+            o.push(c);
+            o.push(b"ACGTN"[rng.gen_range(0..5)]);
+        } else {
+            o.push(c);
+        }
+    }
+    o
+}
+fn revcomp(s: &[u8]) -> Vec<u8> {
+    s.iter().rev().map(|&c| match c { b'A' => b'T', b'C' => b'G', b'G' => b'C', b'T' => b'A', x => x }).collect()
+}
+
+/// Writes the FASTA inputs of one synthetic collection into `dir`; returns the file list (first = reference).
+fn gen_inputs(kind: &str, seed: u64, dir: &Path) -> Result<Vec<PathBuf>> {
+    let mut rng = util::rng(seed ^ 0xA5C1);
+    // (sample, [(contig, seq)])
+    let mut samples: Vec<(String, Vec<(String, Vec<u8>)>)> = vec![];
+    match kind {
+        "tiny" => {
+            let n = 300 + rng.gen_range(0..200);
+            samples.push(("s0".into(), vec![("c1".into(), rand_seq(&mut rng, n))]));
+        }
+        "multi" => {
+            let nc = 2;
+            let refs: Vec<Vec<u8>> = (0..nc).map(|_| { let n = rng.gen_range(1200..1800); rand_seq(&mut rng, n) }).collect();
+            for s in 0..3 {
+                let mut cs = vec![];
+                for (c, r) in refs.iter().enumerate() {
+                    let mut q = if s == 0 { r.clone() } else { mutate(&mut rng, r, 0.02) };
+                    if s == 2 && c == 1 {
+                        q = revcomp(&q);
+                    }
+                    cs.push((format!("chr{}", c + 1), q));
+                }
+                if s == 1 {
+                    cs.push(("extra".into(), rand_seq(&mut rng, 250)));
+                }
+                samples.push((format!("smp{}", s), cs));
+            }
+        }
+        "raw" => {
+            // contigs shorter than k and contigs without any splitter: raw groups only
+            for s in 0..2 {
+                let mut cs = vec![];
+                for c in 0..6 {
+                    let n = rng.gen_range(3..(K + 20));
+                    cs.push((format!("t{}", c), rand_seq(&mut rng, n)));
+                }
+                cs.push(("nn".into(), vec![b'N'; 40]));
+                samples.push((format!("raw{}", s), cs));
+            }
+        }
+        "batch60" => {
+            let r = rand_seq(&mut rng, 260);
+            for s in 0..60 {
+                let q = if s == 0 { r.clone() } else { mutate(&mut rng, &r, 0.03) };
+                samples.push((format!("b{:02}", s), vec![("c".into(), q)]));
+            }
+        }
+        "big" => {
+            // > 4 MiB of archive: incompressible-ish random sequence, no similarity between samples
+            for s in 0..3 {
+                let n = 7_000_000;
+                samples.push((format!("big{}", s), vec![("c".into(), rand_seq(&mut rng, n))]));
+            }
+        }
+        _ => return Err(anyhow!("unknown kind {}", kind)),
+    }
+    std::fs::create_dir_all(dir)?;
+    let mut files = vec![];
+    for (name, contigs) in &samples {
+        let p = dir.join(format!("{}.fa", name));
+        let mut f = std::io::BufWriter::new(std::fs::File::create(&p)?);
+        for (c, s) in contigs {
+            writeln!(f, ">{}", c)?;
+            for ch in s.chunks(70) {
+                f.write_all(ch)?;
+                f.write_all(b"\n")?;
+            }
+        }
+        f.flush()?;
+        files.push(p);
+    }
+    Ok(files)
+}
+
+fn list_inputs(dir: &Path) -> Result<Vec<PathBuf>> {
+    let mut v: Vec<PathBuf> = std::fs::read_dir(dir)?.filter_map(|e| e.ok()).map(|e| e.path())
+        .filter(|p| p.extension().map(|x| x == "fa").unwrap_or(false)).collect();
+    v.sort();
+    Ok(v)
+}
+
+/// The create path of ragc-cli (multi-file mode, main.rs) driven through the library API.
+fn drive_create(inputs: &[PathBuf], out: &Path, threads: usize, kind_big: bool) -> Result<()> {
+    let (k, seg) = if kind_big { (21, 10_000) } else { (K, SEG) };
+    let config = StreamingQueueConfig {
+        k,
+        segment_size: seg,
+        min_match_len: MINMATCH,
+        num_threads: threads,
+        verbosity: 0,
+        queue_capacity: 64 << 20,
+        concatenated_genomes: inputs.len() == 1,
+        ..StreamingQueueConfig::default()
+    };
+    let (splitters, _, _) = ragc_core::determine_splitters_streaming(&inputs[0], k, seg)?;
+    let mut c = StreamingQueueCompressor::with_splitters(out, config, splitters)?;
+    let mut it = MultiFileIterator::new(vec![inputs[0].clone()])?;
+    while let Some((s, n, d)) = it.next_contig()? {
+        if !d.is_empty() {
+            c.push(s, n, d)?;
+        }
+    }
+    if inputs.len() > 1 {
+        c.drain()?;
+        c.sync_and_flush("AAA#0_REF")?;
+        for f in &inputs[1..] {
+            let mut it = MultiFileIterator::new(vec![f.clone()])?;
+            while let Some((s, n, d)) = it.next_contig()? {
+                if !d.is_empty() {
+                    c.push(s, n, d)?;
+                }
+            }
+        }
+    }
+    c.finalize()
+}
+
+fn mk_inputs(a: &Args) -> Result<()> {
+    let files = gen_inputs(a.get("kind")?, a.num("seed", 1u64), Path::new(a.get("dir")?))?;
+    println!("{}", json!({"files": files}));
+    Ok(())
+}
+
+/// `rvh create --dir D --out P [--threads T]`: result class on stdout, exit status 0 ok / 1 err / 101 panic
+fn create_cmd(a: &Args) -> Result<()> {
+    util::install_panic_hook();
+    let inputs = list_inputs(Path::new(a.get("dir")?))?;
+    let out = PathBuf::from(a.get("out")?);
+    let threads: usize = a.num("threads", 1);
+    let big = a.flag("big");
+    let r = util::catch(AssertUnwindSafe(|| drive_create(&inputs, &out, threads, big)));
+    let (class, msg, code) = match r {
+        Ok(Ok(())) => ("ok", String::new(), 0),
+        Ok(Err(e)) => ("err", format!("{:#}", e), 1),
+        Err(p) => ("panic", p, 101),
+    };
+    println!("{}", json!({"result": class, "msg": msg}));
+    std::io::stdout().flush().ok();
+    std::process::exit(code);
+}
+
+// ---------------------------------------------------------------------------------------------
+// C14: every strict prefix of an archive through the two open paths
+// ---------------------------------------------------------------------------------------------
+fn class_of<T>(r: std::result::Result<Result<T>, String>) -> (&'static str, String, Option<T>) {
+    match r {
+        Ok(Ok(v)) => ("ok", String::new(), Some(v)),
+        Ok(Err(e)) => ("err", format!("{:#}", e).chars().take(160).collect(), None),
+        Err(p) => ("panic", p.chars().take(200).collect(), None),
+    }
+}
+
+/// `rvh trace-truncate --archive P --from A --to B --out EV --tmp DIR`: offsets B-1 down to A on a
+/// private copy that is shortened with set_len; one event per offset, written before the next open.
+fn trace_truncate(a: &Args) -> Result<()> {
+    util::install_panic_hook();
+    let src = a.get("archive")?;
+    let bytes = std::fs::read(src)?;
+    let len = bytes.len() as u64;
+    let from: u64 = a.num("from", 0);
+    let to: u64 = a.num("to", len + 1).min(len + 1);
+    let dir = tempfile::tempdir_in(a.opt("tmp").unwrap_or("/tmp"))?;
+    let p = dir.path().join("prefix.agc");
+    std::fs::write(&p, &bytes)?;
+    let ps = p.to_string_lossy().to_string();
+    let mut out = std::fs::OpenOptions::new().create(true).append(true).open(a.get("out")?)?;
+    let huge = (len as usize).saturating_add(1 << 20);
+    let mut n = to;
+    while n > from {
+        n -= 1;
+        std::fs::OpenOptions::new().write(true).open(&p)?.set_len(n)?;
+        let is_prefix = n < len;
+        MAX_REQ.store(0, Ordering::Relaxed);
+        if is_prefix {
+            ALLOC_LIMIT.store(huge, Ordering::Relaxed);
+        }
+        let (ac, amsg, h) = class_of(util::catch(AssertUnwindSafe(|| -> Result<usize> {
+            let mut ar = Archive::new_reader();
+            ar.open(&ps)?;
+            Ok(ar.get_num_streams())
+        })));
+        let (dc, dmsg, d) = class_of(util::catch(AssertUnwindSafe(|| -> Result<(usize, usize)> {
+            let mut d = Decompressor::open(&ps, DecompressorConfig { verbosity: 0 })?;
+            let names = d.list_samples();
+            // can any sample actually be read from this handle?
+            let mut readable = 0;
+            for s in &names {
+                if let Ok(Ok(_)) = util::catch(AssertUnwindSafe(|| d.get_sample(s))) {
+                    readable += 1;
+                }
+            }
+            Ok((names.len(), readable))
+        })));
+        ALLOC_LIMIT.store(usize::MAX, Ordering::Relaxed);
+        let maxalloc = MAX_REQ.load(Ordering::Relaxed).min(i32::MAX as usize);
+        let ev = json!({"ev": "open_prefix", "n": n, "len": len, "a": ac, "d": dc, "streams": h.unwrap_or(0),
+            "samples": d.map(|x| x.0).unwrap_or(0), "readable": d.map(|x| x.1).unwrap_or(0),
+            "huge": is_prefix && MAX_REQ.load(Ordering::Relaxed) > huge, "maxalloc": maxalloc, "amsg": amsg, "dmsg": dmsg});
+        writeln!(out, "{}", ev)?;
+    }
+    Ok(())
+}
+
+// ---------------------------------------------------------------------------------------------
+// C15: first failing write at byte offset f, for a list of f, in child processes
+// ---------------------------------------------------------------------------------------------
+fn run_limited(mut cmd: std::process::Command, limit: Option<u64>) -> Result<(Option<i32>, Option<i32>, String, String)> {
+    use std::os::unix::process::{CommandExt, ExitStatusExt};
+    cmd.env("RUST_BACKTRACE", "0");
+    // glibc malloc tuning for the children only: the level-19 ZSTD contexts of the metadata streams are
+    // 100+ MB each; served from a kept heap instead of fresh mmap regions they do not page-fault
+    // again for every stream (10 s -> 2 s per create on a loaded machine). No effect on file I/O.
+    cmd.env("MALLOC_MMAP_THRESHOLD_", "2147483648").env("MALLOC_TRIM_THRESHOLD_", "4294967296").env("MALLOC_TOP_PAD_", "268435456");
+    cmd.stdin(std::process::Stdio::null()).stdout(std::process::Stdio::piped()).stderr(std::process::Stdio::piped());
+    if let Some(f) = limit {
+        unsafe {
+            cmd.pre_exec(move || {
+                // EFBIG as an error value instead of a fatal signal; the limit is the first failing offset
+                libc::signal(libc::SIGXFSZ, libc::SIG_IGN);
+                let r = libc::rlimit { rlim_cur: f as libc::rlim_t, rlim_max: f as libc::rlim_t };
+                if libc::setrlimit(libc::RLIMIT_FSIZE, &r) != 0 {
+                    return Err(std::io::Error::last_os_error());
+                }
+                Ok(())
+            });
+        }
+    }
+    let o = cmd.output().context("spawn child")?;
+    Ok((o.status.code(), o.status.signal(), String::from_utf8_lossy(&o.stdout).to_string(), String::from_utf8_lossy(&o.stderr).to_string()))
+}
+
+/// `rvh fault-sweep --mode api|cli --dir INPUTS --ref REF.agc --limits a,b,c|--limits-file F --jobs J
+///      --tmp DIR --out EV [--ragc PATH] [--big]`
+fn fault_sweep(a: &Args) -> Result<()> {
+    util::install_panic_hook();
+    let mode = a.get("mode")?.to_string();
+    let indir = PathBuf::from(a.get("dir")?);
+    let inputs = list_inputs(&indir)?;
+    let refbytes = std::fs::read(a.get("ref")?)?;
+    let refsha = util::sha256_hex(&refbytes);
+    let limits: Vec<i64> = if let Some(f) = a.opt("limits-file") {
+        std::fs::read_to_string(f)?.split_whitespace().map(|x| x.parse().unwrap()).collect()
+    } else {
+        a.get("limits")?.split(',').map(|x| x.trim().parse().unwrap()).collect()
+    };
+    let jobs: usize = a.num("jobs", 4);
+    let tmp = tempfile::tempdir_in(a.opt("tmp").unwrap_or("/tmp"))?;
+    let ragc = a.opt("ragc").map(|s| s.to_string());
+    let big = a.flag("big");
+    let exe = std::env::current_exe()?;
+    let next = AtomicUsize::new(0);
+    let results = std::sync::Mutex::new(Vec::<(usize, Value)>::new());
+    std::thread::scope(|sc| {
+        for j in 0..jobs {
+            let (limits, inputs, indir, tmp, ragc, exe, mode, refsha, next, results) =
+                (&limits, &inputs, &indir, &tmp, &ragc, &exe, &mode, &refsha, &next, &results);
+            sc.spawn(move || loop {
+                let i = next.fetch_add(1, Ordering::SeqCst);
+                if i >= limits.len() {
+                    break;
+                }
+                let f = limits[i];
+                let outp = tmp.path().join(format!("o{}_{}.agc", j, i));
+                let _ = std::fs::remove_file(&outp);
+                let cmd = if mode == "cli" {
+                    let mut c = std::process::Command::new(ragc.as_ref().expect("--ragc"));
+                    let (k, s) = if big { (21, 10_000) } else { (K, SEG) };
+                    c.arg("create").arg("-o").arg(&outp).args(["-k", &k.to_string(), "-s", &s.to_string(), "-m", &MINMATCH.to_string(), "-t", "1", "-v", "0"]);
+                    for p in inputs.iter() {
+                        c.arg(p);
+                    }
+                    c
+                } else {
+                    let mut c = std::process::Command::new(exe);
+                    c.arg("create").arg("--dir").arg(indir).arg("--out").arg(&outp).args(["--threads", "1"]);
+                    if big {
+                        c.arg("--big");
+                    }
+                    c
+                };
+                let ev = match run_limited(cmd, if f < 0 { None } else { Some(f as u64) }) {
+                    Err(e) => json!({"ev": "fault", "mode": mode, "f": f, "result": "spawn-error", "msg": format!("{:#}", e)}),
+                    Ok((code, sig, stdout, stderr)) => {
+                        let panicked = stderr.contains("panicked at");
+                        let api: Value = stdout.lines().last().and_then(|l| serde_json::from_str(l).ok()).unwrap_or(Value::Null);
+                        let result = if sig.is_some() { "signal" } else if mode == "api" {
+                            match api["result"].as_str() { Some("ok") => "ok", Some("err") => "err", Some("panic") => "panic", _ => if code == Some(0) { "ok" } else { "err" } }
+                        } else if code == Some(0) { "ok" } else if panicked { "panic" } else { "err" };
+                        let data = std::fs::read(&outp).ok();
+                        let fsize = data.as_ref().map(|d| d.len() as i64).unwrap_or(-1);
+                        let complete = data.as_ref().map(|d| util::sha256_hex(d) == *refsha).unwrap_or(false);
+                        let ops = outp.to_string_lossy().to_string();
+                        let opens = data.is_some() && matches!(util::catch(AssertUnwindSafe(|| {
+                            Decompressor::open(&ops, DecompressorConfig { verbosity: 0 }).map(|d| d.list_samples().len())
+                        })), Ok(Ok(n)) if n > 0);
+                        let msg: String = if mode == "api" { api["msg"].as_str().unwrap_or("").chars().take(200).collect() } else { stderr.lines().filter(|l| l.contains("rror") || l.contains("panicked")).next().or(stderr.lines().last()).unwrap_or("").chars().take(200).collect() };
+                        json!({"ev": "fault", "mode": mode, "f": f, "result": result, "exit": code.unwrap_or(-1), "signal": sig.unwrap_or(0),
+                               "fsize": fsize, "complete": complete, "opens": opens, "msg": msg})
+                    }
+                };
+                let _ = std::fs::remove_file(&outp);
+                results.lock().unwrap().push((i, ev));
+            });
+        }
+    });
+    let mut r = results.into_inner().unwrap();
+    r.sort_by_key(|x| x.0);
+    let mut out = std::io::BufWriter::new(std::fs::File::create(a.get("out")?)?);
+    for (_, ev) in r {
+        writeln!(out, "{}", ev)?;
+    }
+    out.flush()?;
+    Ok(())
 }
